@@ -1099,6 +1099,8 @@ func freePorts(r *hx.RNG) (string, string) {
 	return strconv.Itoa(a), strconv.Itoa(pick(a))
 }
 
+var saneName = map[string]bool{"a": true, "dns": true, "dns.example": true, "x-1.example.org": true, "localhost": true}
+
 func genNet(r *hx.RNG) netSpec {
 	p1, p2 := freePorts(r)
 	socksHosts := func() ep {
@@ -1124,7 +1126,22 @@ func genNet(r *hx.RNG) netSpec {
 		return e
 	}
 	s := hx.Pick(r, schemes)
-	_, socks, _ := schemeMode(s)
+	mode, socks, _ := schemeMode(s)
+	if mode == "tls" || mode == "https" {
+		// the TLS library has rules of its own for odd names ("." , trailing dots, ...):
+		// keep to plain names and real IP literals where a certificate is involved
+		base := socksHosts
+		socksHosts = func() ep {
+			for try := 0; try < 50; try++ {
+				e := base()
+				_, err := netip.ParseAddr(e.host)
+				if err == nil || (!e.v6 && saneName[e.host]) {
+					return e
+				}
+			}
+			return name("dns.example")
+		}
+	}
 	var u uin
 	direct := socks && r.Chance(1, 3)
 	if direct {
